@@ -26,9 +26,22 @@ def parse(log):
                 out[cur]['checks'][m.group(1)] = {'exit': int(m.group(2)), 'violation_signatures': int(m.group(3)), 'clauses': clauses}
     return out
 
-def main(logs, srcroot='/tmp', rename=None):
+def merged(logs):
+    out = {}
     for log in logs:
         for sid, r in parse(log).items():
+            if sid not in out:
+                out[sid] = r
+            else:
+                for k in ('tests', 'demo_with', 'demo_without'):
+                    out[sid][k] = out[sid][k] if out[sid][k] is not None else r[k]
+                out[sid]['checks'].update(r['checks'])
+    return out
+
+
+def main(logs, srcroot='/tmp', rename=None):
+    if True:
+        for sid, r in merged(logs).items():
             P, v = sid[:3], sid[3]
             if rename:
                 sid = P + rename[v]
@@ -59,5 +72,7 @@ def main(logs, srcroot='/tmp', rename=None):
 if __name__ == '__main__':
     if sys.argv[1] == '--wave3':
         main(sys.argv[2:], rename={'A': 'C', 'B': 'D'})
+    elif sys.argv[1] == '--wave4':
+        main(sys.argv[2:], rename={'A': 'E', 'B': 'F'})
     else:
         main(sys.argv[1:])
